@@ -245,7 +245,8 @@ func buildWorld(ctx *Ctx, sc *Scenario) *World {
 		_ = os.WriteFile(filepath.Join(dir, "pwm"), []byte(strconv.Itoa(sc.InitPwm)), 0644)
 		_ = os.WriteFile(filepath.Join(dir, "theta"), []byte(strconv.Itoa(sc.Plant.Theta)), 0644)
 		cmdScript(filepath.Join(dir, "set.sh"), "echo \"$1\" > "+dir+"/pwm; echo \"$1\" >> "+dir+"/writes")
-		cmdScript(filepath.Join(dir, "get.sh"), "cat "+dir+"/pwm")
+		// while the file "garble" exists the tool answers with a message instead of the value (exit status 0)
+		cmdScript(filepath.Join(dir, "get.sh"), "if [ -e "+dir+"/garble ]; then echo 'device busy'; else cat "+dir+"/pwm; fi")
 		cmdScript(filepath.Join(dir, "rpm.sh"), "p=$(cat "+dir+"/pwm); t=$(cat "+dir+"/theta); if [ \"$p\" -lt \"$t\" ]; then echo 0; else echo $((200+p*"+strconv.Itoa(sc.Plant.MaxRpm)+"/255)); fi")
 		cfg := configuration.FanConfig{ID: id, Curve: w.Curve.Id, NeverStop: sc.Fan.NeverStop,
 			Cmd: &configuration.CmdFanConfig{
